@@ -50,6 +50,22 @@ type Case struct {
 	ProbeEvery int   `json:"probe_every"` // probe after every k-th op (and at the end)
 	RandProbes int   `json:"rand_probes"`
 	Seed       int64 `json:"seed"`
+	// Twin: a second filter instance lives in the same process and receives the same history shifted
+	// into another address space (x XOR 64.0.0.0); each filter is probed with both spaces against
+	// its own model - instances share nothing
+	Twin bool `json:"twin,omitempty"`
+}
+
+const twinShift = 0x40000000
+
+// bystanders calls the other exported helpers of the package that work on the same kind of value
+// (and, inside the package, may share its tables); a filter's answers do not depend on them.
+func bystanders(o Op) {
+	n := Op{IP: o.IP, Ones: o.Ones}.ipnet() // always a well-formed net: the helpers are not the subject here
+	netutil.FirstIP(n)
+	netutil.LastIP(n)
+	n6 := Op{IP: o.IP, Ones: o.Ones, Form: 1}.ipnet()
+	netutil.LastIP(n6)
 }
 
 func u2ip(u uint32) net.IP {
@@ -135,6 +151,30 @@ func runCase(cs Case, st *stats) (key, expected, observed string) {
 	}()
 	f := netutil.NewIPv4Filter()
 	m := &model{set: map[[2]uint32]struct{}{}}
+	var f2 *netutil.IPv4Filter
+	m2 := &model{set: map[[2]uint32]struct{}{}}
+	if cs.Twin {
+		f2 = netutil.NewIPv4Filter()
+	}
+	// twin applies the shifted operation to the second instance
+	twin := func(o Op) string {
+		if f2 == nil || o.Form != 0 {
+			return ""
+		}
+		o.IP ^= twinShift
+		var err error
+		if o.Rem {
+			err = f2.Remove(o.ipnet())
+		} else {
+			err = f2.Add(o.ipnet())
+		}
+		if err != nil {
+			return err.Error()
+		}
+		m2.apply(o)
+		return ""
+	}
+	bystanders(Op{IP: 10<<24 | 1<<16 | 2<<8 | 3, Ones: 8})
 	r := rand.New(rand.NewSource(cs.Seed))
 	touched := map[rng]struct{}{}
 	touch := func(o Op) {
@@ -156,6 +196,11 @@ func runCase(cs Case, st *stats) (key, expected, observed string) {
 			touch(o)
 		}
 	}
+	for i := 0; i < cs.Filler && f2 != nil; i++ {
+		if e := twin(fillerOp(i)); e != "" {
+			return "filler-add-error", "nil", e
+		}
+	}
 	if cs.FillerRem > 0 {
 		for i := 0; i < cs.Filler; i += cs.FillerRem {
 			o := fillerOp(i)
@@ -165,6 +210,9 @@ func runCase(cs Case, st *stats) (key, expected, observed string) {
 				return "filler-rem-error", "nil", err.Error()
 			}
 			m.apply(o)
+			if e := twin(o); e != "" {
+				return "filler-rem-error", "nil", e
+			}
 			if i < 40 {
 				touch(o)
 			}
@@ -177,6 +225,18 @@ func runCase(cs Case, st *stats) (key, expected, observed string) {
 		}
 		for i := 0; i < cs.RandProbes; i++ {
 			addrs = append(addrs, r.Uint32())
+		}
+		if f2 != nil {
+			for _, a := range addrs[:len(addrs):len(addrs)] {
+				addrs = append(addrs, a^twinShift)
+			}
+			for _, a := range addrs {
+				if want, got := m2.contains(a), f2.Contains(u2ip(a)); got != want {
+					st.probes++
+					return fmt.Sprintf("twin-contains:%v", want), fmt.Sprintf("second filter instance: Contains(%s)=%v %s", u2ip(a), want, after), fmt.Sprintf("%v", got)
+				}
+			}
+			st.probes += int64(len(addrs))
 		}
 		for _, a := range addrs {
 			want := m.contains(a)
@@ -208,12 +268,16 @@ func runCase(cs Case, st *stats) (key, expected, observed string) {
 			err = f.Add(o.ipnet())
 		}
 		st.ops++
+		bystanders(o)
 		switch o.Form {
 		case 0:
 			if err != nil {
 				return "valid-rejected", "nil error for " + o.String(), err.Error()
 			}
 			m.apply(o)
+			if e := twin(o); e != "" {
+				return "valid-rejected", "nil error for the shifted " + o.String() + " on the second instance", e
+			}
 			touch(o)
 			if !o.Rem && o.Ones > 0 {
 				adds++
@@ -262,7 +326,7 @@ type mon struct{}
 func (mon) Name() string { return "ipfilter" }
 
 func (mon) Level(string) (string, string) {
-	return "exploration", "operation sequences (exhaustive over a 12-op alphabet up to length 4 (quick) / 5 (thorough), replayed from empty and after 254/255/256 filler adds so that they run in list mode, across the list→map migration and in map mode; plus seeded random sequences over a small universe steered across the migration), every boundary address of every touched range probed in 4- and 16-byte form against a set-of-prefixes model; distinct_nontrivial = distinct (filler, sequence) pairs whose sequence changes the model at least once"
+	return "exploration", "operation sequences (exhaustive over a 12-op alphabet up to length 4 (quick) / 5 (thorough), replayed from empty and after 254/255/256 filler adds so that they run in list mode, across the list→map migration and in map mode; plus seeded random sequences over a small universe steered across the migration), every boundary address of every touched range probed in 4- and 16-byte form against a set-of-prefixes model; the package's other exported helpers (FirstIP/LastIP) are called between the operations, and in 1/8 (exhaustive) resp. 1/3 (random) of the sequences a second filter instance receives the same history shifted into another address space, each instance probed with both spaces against its own model; distinct_nontrivial = distinct (filler, sequence) pairs whose sequence changes the model at least once"
 }
 
 func (mon) Assumptions(string) []string {
@@ -372,7 +436,7 @@ func (mn mon) Run(sh drv.Shard, c *drv.Ctx) {
 				idx++
 				if idx%a.Parts == a.Part {
 					for _, fl := range fillers {
-						cs := Case{Filler: fl[0], FillerRem: fl[1], Ops: append([]Op(nil), prefix...), ProbeEvery: 1, RandProbes: 2, Seed: sh.Seed + int64(idx)}
+						cs := Case{Filler: fl[0], FillerRem: fl[1], Ops: append([]Op(nil), prefix...), ProbeEvery: 1, RandProbes: 2, Seed: sh.Seed + int64(idx), Twin: (idx/a.Parts)%8 == 0}
 						if c.NumSamples() < 2 && len(prefix) == a.MaxLen && fl[0] == 255 {
 							c.Sample(map[string]any{"filler": fl, "ops": opsStrings(cs.Ops)})
 						}
@@ -397,6 +461,7 @@ func (mn mon) Run(sh drv.Shard, c *drv.Ctx) {
 		r := rand.New(rand.NewSource(sh.Seed*1000003 + int64(a.Part)))
 		for i := 0; i < a.Count; i++ {
 			cs := randCase(r)
+			cs.Twin = i%3 == 0
 			if c.NumSamples() < 2 {
 				ops := opsStrings(cs.Ops)
 				if len(ops) > 12 {
